@@ -107,6 +107,8 @@ theorem los_weights_sum (shape : List Nat) (s e : List Rat) (lo hi : Rat) (h : c
     sumL ((losRow shape s e).map Prod.snd) = hi - lo := by
   unfold losRow
   rw [h]
+  show sumL ((losSeg shape s e lo hi).map Prod.snd) = hi - lo
+  unfold losSeg
   simp only [List.map_map]
   generalize List.mergeSort _ _ = X
   have hts : [lo] ++ X ++ [hi] = lo :: (X ++ [hi]) := by simp
